@@ -306,6 +306,13 @@ def same_dataset(path_a, path_b):
     return None
 
 
+def _insert(items, item, position):
+    """items with item inserted somewhere (one point is a sure hit, but not always the first)."""
+    items = list(items)
+    items.insert(position % (len(items) + 1), item)
+    return items
+
+
 @st.composite
 def command_cases(draw, command=None):
     conv = draw(st.sampled_from(["cf1d", "cf2d", "shoc_simple", "shoc_standard", "ugrid"]))
@@ -336,7 +343,8 @@ def command_cases(draw, command=None):
     return {
         "spec": spec, "command": command,
         "geom": draw(c07.SIMPLE_GEOM), "clip_as": draw(st.sampled_from(["bounds", "geojson", "geojson_file"])),
-        "points": [sure_hit] + draw(st.lists(c05.POINT_SEL, min_size=0, max_size=4)),
+        "points": _insert(draw(st.lists(c05.POINT_SEL, min_size=0, max_size=4)), sure_hit,
+                          draw(st.integers(0, 4))),
         "policy": draw(st.sampled_from(["error", "drop", "fill", None])),
         "columns": draw(st.sampled_from([None, ["x", "y"], ["lon_deg", "lat_deg"]])),
         "dimension": draw(st.sampled_from([None, "station", "obs"])),
